@@ -66,6 +66,14 @@ CLAIMED["C09"] = ("Proof by complete enumeration inside the kernel: for every op
     "a compiling witness program is the replay.",
     "5.C09", "Trusted: Coq kernel (vm_compute); translator (xlate + autotraits.py); auto-trait calculus (validated against rustc each run); rustc trait resolution.",
     "Coq finite-matrix proof over a model regenerated from source + rustc differential probe")
+CLAIMED["C16"] = ("Proof: field names, order, pointer/integer kinds and function-pointer arities of every published runtime struct agree between the Rust "
+    "definitions (with a C repr), the C++ patterns and C snippets of the post-processor, the pre-generated header and the property's own list; enum tags are "
+    "None=0/Some=1, Ok=0/Err=1; offsets are independent of the element type; releasing/cloning/growing/invoking/advancing through the fields is definitionally "
+    "the Rust operation on the shared field-level models (C10/C11/C15). All declarations are REGENERATED from /repo by a translator on every run. Tie/monitor: a "
+    "C program containing only the published declarations drives real values from a static library built from /repo (4 element layouts) and its observations are "
+    "compared with the models and with Rust-side read-backs.",
+    "5.C16", "Trusted: Coq kernel (vm_compute); translator; hand-written C declarations in driver.c; gcc / x86-64 SysV layout; shared models.",
+    "Coq finite check over translator-generated declarations + drive-equivalence lemmas + C-driven differential execution")
 PENDING = "not yet built in this round (planned, see DESIGN.md section 5); not claimed until its theorem, tie and monitor exist"
 NA = {}
 
